@@ -327,7 +327,60 @@ struct WL {
         // apply everything that was accepted
         gsim::faults_off();
         {
-            auto h = static_cast<const DG*>(dg)->lock_shared();
+            // "the next lock_shared or modify call": every access form must drain
+            using namespace std::chrono_literals;
+            const DG* cdg = static_cast<const DG*>(dg);
+            int form = gsim::knob("drain_form", 0, 6);
+            const char* fname = "lock_shared";
+            switch (form) {
+                case 1: {
+                    fname = "try_lock_shared";
+                    auto h = cdg->try_lock_shared();
+                    if (!h) gsim::fail("try_failed", "try_lock_shared failed on an idle object");
+                    break;
+                }
+                case 2: {
+                    fname = "load";
+                    Cell c = cdg->load();
+                    (void)c;
+                    break;
+                }
+                case 3:
+                    fname = "modify_detach";
+                    dg->modify_detach([](Cell&) {});
+                    break;
+                case 4: {
+                    fname = "modify_async";
+                    auto f = dg->modify_async([](Cell&) { return 1; });
+                    if (f.get() != 1) gsim::fail("wrong_result", "modify_async result");
+                    break;
+                }
+                case 5:
+                    if constexpr (timed) {
+                        fname = "try_lock_shared_for";
+                        auto h = cdg->try_lock_shared_for(40us);
+                        if (!h) gsim::fail("try_failed", "try_lock_shared_for failed on an idle object");
+                    }
+                    break;
+                case 6:
+                    if constexpr (timed) {
+                        fname = "try_lock_shared_until";
+                        auto h = cdg->try_lock_shared_until(std::chrono::steady_clock::now() + 40us);
+                        if (!h) gsim::fail("try_failed", "try_lock_shared_until failed on an idle object");
+                    }
+                    break;
+                default: break;
+            }
+            if (form != 0 && strcmp(fname, "lock_shared")) {
+                gsim::Oracle o;
+                for (auto& s : st.subs)
+                    if (s.execs == 0)
+                        gsim::fail("stranded", "function #%d was accepted (submission returned at "
+                                   "%llu) but has not been applied by the next %s call made "
+                                   "while no handle was held", s.id, (unsigned long long)s.resp, fname);
+                gsim::probe("deferred.drain_by_other_form");
+            }
+            auto h = cdg->lock_shared();
             long v = h->read();
             gsim::Oracle o;
             long executed = 0;
